@@ -380,7 +380,8 @@ def run(tier):
             payloads.append(((i, j), "both", 2 if tier != "quick" else 1))
             payloads.append(((i, j), "stale", 1))
     if tier != "quick":
-        for tri in itertools.combinations(range(n), 3):
+        # triples over the scopes whose values cannot be ordered or mix types (indices 4..13 of the pool)
+        for tri in itertools.combinations(range(4, 14), 3):
             payloads.append((tri, "run", 1))
     res = common.pmap(_render_task, payloads, chunksize=2)
     viols = []
